@@ -668,6 +668,37 @@ struct World
       ctx.ev("move_ctor slot" + std::to_string(s) + " -> slot" + std::to_string(fs));
       return;
     }
+    if (n == "move_ctor_node")
+    {
+      // move construction from ANY node (also an inner one): the new tree is a root; the source
+      // stays where it is, childless, and is given a fresh value afterwards
+      int const fs = free_slot();
+      if (fs < 0)
+        return;
+      long const aid = ma.id;
+      bool const ok = guarded(n, [&] { sut[fs] = std::make_unique<Tree>(std::move(ta)); });
+      if (!ok)
+      {
+        SIM_CHECK(!sut[fs], "ctor-threw-but-object-exists", n);
+        after_fault({a.slot}, n);
+        ctx.ev("move_ctor_node threw");
+        return;
+      }
+      SIM_CHECK(ta.empty(), "moved-from-node-keeps-children", n);
+      long const fresh = counter++;
+      sim::Val v(fresh);
+      nothrow(n, [&] { ta.value(std::move(v)); });
+      model[fs] = std::make_unique<M>();
+      model[fs]->id = aid;
+      model[fs]->ch = std::move(ma.ch);
+      for (auto &x : model[fs]->ch)
+        x->parent = model[fs].get();
+      ma.ch.clear();
+      ma.id = fresh;
+      ctx.probe(ma.parent != nullptr ? "move_ctor_from_inner_node" : "move_ctor_from_root_kept");
+      ctx.ev("move_ctor_node " + std::to_string(aid) + " -> slot" + std::to_string(fs));
+      return;
+    }
     if (n == "copy_assign")
     {
       Pair const b = all[op.getu("other") % all.size()];
@@ -882,7 +913,7 @@ void generate(sim::Rng &rng, sim::Plan &p, bool)
   static char const *const names[] = {
       "new_root", "destroy_root", "push_v", "insert_v", "push_copy", "insert_copy", "push_root",
       "pop", "release", "erase1", "erase", "clear", "sort", "value", "swap", "copy_ctor",
-      "move_ctor", "copy_assign", "move_assign", "hoist", "observe"};
+      "move_ctor", "move_ctor_node", "copy_assign", "move_assign", "hoist", "observe"};
   std::vector<std::string> bag;
   for (auto const *o : names)
   {
